@@ -1,71 +1,40 @@
 (* C40 -- facts about the abstract REPL machine [step] / [run_abstract] of Repl.v, for all
    histories, all values, all output scripts.  (That the generated code implements [step] is
-   ReplStep*.v / ReplProofs.v.) *)
+   ReplSweep.v / ReplProofs.v.) *)
 From HyV Require Import State.Repl.
+
+Ltac step_cases out inp :=
+  destruct inp as [|v|x|x f]; cbn [step];
+  [ | destruct (is_none v); [|destruct (out v) as [y|]; [destruct (is_exception y)|]]
+    | destruct (is_syntax_family x); [|destruct (is_macro_or_require x); [|destruct (is_language_error x)]]
+    | destruct (is_system_exit x); [|destruct (is_exception x)] ].
 
 (* ---- "asks for more input exactly while the accumulated text is incomplete" *)
 Lemma more_iff_incomplete out inp r : snd (step out inp r) = Some true <-> inp = IIncomplete.
-Proof.
-  destruct inp as [|v|x|x f]; cbn [step].
-  - split; reflexivity.
-  - destruct (is_none v); [cbn; split; discriminate|].
-    destruct (out v) as [y|]; [destruct (is_exception y)|]; cbn; split; discriminate.
-  - destruct (is_syntax_family x); [cbn; split; discriminate|].
-    destruct (is_macro_or_require x); [cbn; split; discriminate|].
-    destruct (is_language_error x); cbn; split; discriminate.
-  - destruct (is_system_exit x); [cbn; split; discriminate|].
-    destruct (is_exception x); cbn; split; discriminate.
-Qed.
+Proof. step_cases out inp; cbn; split; try reflexivity; discriminate. Qed.
 
 Lemma incomplete_changes_nothing out r : fst (step out IIncomplete r) = r.
 Proof. reflexivity. Qed.
 
-(* ---- what an input shifts into *1 (None: this input does not shift) *)
-Definition shifted (inp : input) (r : rstate) : option val :=
-  match inp with
-  | IIncomplete => None
-  | IValue v => Some v
-  | ICompileError x => if is_syntax_family x then Some (r_last r) else None
-  | IRunError x _ => if is_system_exit x then None else if is_exception x then Some (r_last r) else None
-  end.
+(* ---- only an input that was evaluated to a value touches *1 *2 *3: it shifts its value in *)
+Definition evaluated (inp : input) : option val :=
+  match inp with IValue v => Some v | _ => None end.
 
 Lemma step_slots out inp r :
   let r' := fst (step out inp r) in
-  match shifted inp r with
+  match evaluated inp with
   | Some w => r_1 r' = w /\ r_2 r' = r_1 r /\ r_3 r' = r_2 r
   | None => r_1 r' = r_1 r /\ r_2 r' = r_2 r /\ r_3 r' = r_3 r
   end.
-Proof.
-  destruct inp as [|v|x|x f]; cbn [step shifted].
-  - repeat split.
-  - destruct (is_none v); [cbn; repeat split|].
-    destruct (out v) as [y|]; [destruct (is_exception y)|]; cbn; repeat split.
-  - destruct (is_syntax_family x); [cbn; repeat split|].
-    destruct (is_macro_or_require x); [cbn; repeat split|].
-    destruct (is_language_error x); cbn; repeat split.
-  - destruct (is_system_exit x); [cbn; repeat split|].
-    destruct (is_exception x); cbn; repeat split.
-Qed.
+Proof. step_cases out inp; cbn; repeat split. Qed.
 
-Lemma step_last out inp r :
-  r_last (fst (step out inp r)) = match inp with IValue v => v | _ => r_last r end.
-Proof.
-  destruct inp as [|v|x|x f]; cbn [step].
-  - reflexivity.
-  - destruct (is_none v); [reflexivity|].
-    destruct (out v) as [y|]; [destruct (is_exception y)|]; reflexivity.
-  - destruct (is_syntax_family x); [reflexivity|].
-    destruct (is_macro_or_require x); [reflexivity|].
-    destruct (is_language_error x); reflexivity.
-  - destruct (is_system_exit x); [reflexivity|].
-    destruct (is_exception x); reflexivity.
-Qed.
+(* a failed or incomplete input leaves *1 *2 *3 exactly as they were *)
+Theorem failed_input_leaves_slots out inp r :
+  evaluated inp = None ->
+  let r' := fst (step out inp r) in r_1 r' = r_1 r /\ r_2 r' = r_2 r /\ r_3 r' = r_3 r.
+Proof. intros E. pose proof (step_slots out inp r) as S. rewrite E in S. exact S. Qed.
 
-(* ---- histories without failed inputs: *1 *2 *3 are the latest three results *)
-Definition unfailing (inp : input) : bool :=
-  match inp with IIncomplete | IValue _ => true | _ => false end.
-
-(* results of the inputs, latest first *)
+(* results of the evaluated inputs, latest first *)
 Fixpoint results_acc (inputs : list input) (acc : list val) : list val :=
   match inputs with
   | [] => acc
@@ -77,52 +46,25 @@ Definition results (inputs : list input) : list val := results_acc inputs [].
 Definition slots_are (r : rstate) (l : list val) : Prop :=
   r_1 r = nth 0 l VNone /\ r_2 r = nth 1 l VNone /\ r_3 r = nth 2 l VNone.
 
-Lemma run_unfailing out inputs : forall r acc,
-  forallb unfailing inputs = true -> slots_are r acc ->
-  slots_are (run_abstract out inputs r) (results_acc inputs acc).
-Proof.
-  induction inputs as [|inp rest IH]; intros r acc HF HS; [exact HS|].
-  cbn [forallb] in HF. apply andb_true_iff in HF. destruct HF as [H1 H2].
-  cbn [run_abstract].
-  destruct inp as [|v|x|x f]; try discriminate; cbn [results_acc].
-  - apply IH; assumption.
-  - apply IH; [assumption|].
-    pose proof (step_slots out (IValue v) r) as S. cbn [shifted] in S. destruct S as (A & B & C).
-    destruct HS as (P & Q & _). unfold slots_are. cbn [nth]. rewrite A, B, C, P, Q.
-    repeat split; try reflexivity; destruct acc as [|? [|? ?]]; reflexivity.
-Qed.
-
-Theorem history_vars_without_failures out inputs :
-  forallb unfailing inputs = true ->
-  slots_are (run_abstract out inputs initial) (results inputs).
-Proof.
-  intros H. apply run_unfailing; [exact H|]. repeat split.
-Qed.
-
-(* ---- the exact behaviour on ANY history: the slots hold the latest three SHIFTED values, and a
-   failed input that is shown as a syntax or run-time error shifts the previous last_value again *)
-Fixpoint shift_log (out : out_script) (inputs : list input) (r : rstate) (acc : list val) : list val :=
-  match inputs with
-  | [] => acc
-  | inp :: rest =>
-      shift_log out rest (fst (step out inp r))
-        (match shifted inp r with Some w => w :: acc | None => acc end)
-  end.
-
 Lemma run_slots out inputs : forall r acc,
-  slots_are r acc -> slots_are (run_abstract out inputs r) (shift_log out inputs r acc).
+  slots_are r acc -> slots_are (run_abstract out inputs r) (results_acc inputs acc).
 Proof.
   induction inputs as [|inp rest IH]; intros r acc HS; [exact HS|].
-  cbn [run_abstract shift_log]. apply IH.
+  cbn [run_abstract].
   pose proof (step_slots out inp r) as S. cbv zeta in S.
-  destruct (shifted inp r) as [w|].
+  destruct inp as [|v|x|x f]; cbn [results_acc evaluated] in *; apply IH.
+  - destruct S as (A & B & C). destruct HS as (P & Q & R). unfold slots_are. rewrite A, B, C. repeat split; assumption.
   - destruct S as (A & B & C). destruct HS as (P & Q & _). unfold slots_are. cbn [nth].
     rewrite A, B, C, P, Q. repeat split; try reflexivity; destruct acc as [|? [|? ?]]; reflexivity.
   - destruct S as (A & B & C). destruct HS as (P & Q & R). unfold slots_are. rewrite A, B, C. repeat split; assumption.
+  - destruct S as (A & B & C). destruct HS as (P & Q & R). unfold slots_are. rewrite A, B, C. repeat split; assumption.
 Qed.
 
-Theorem history_vars_actual out inputs :
-  slots_are (run_abstract out inputs initial) (shift_log out inputs initial []).
+(* After ANY history -- values, None, incomplete lines, compile errors, run-time errors, failing
+   output functions, in any order and number -- *1 *2 *3 are the results of the latest three inputs
+   that were evaluated to a value. *)
+Theorem history_vars out inputs :
+  slots_are (run_abstract out inputs initial) (results inputs).
 Proof. apply run_slots. repeat split. Qed.
 
 (* ---- *e is the latest uncaught exception that was shown *)
@@ -138,17 +80,7 @@ Definition failure_of (out : out_script) (inp : input) : option val :=
 
 Lemma step_e out inp r :
   r_e (fst (step out inp r)) = match failure_of out inp with Some x => Some x | None => r_e r end.
-Proof.
-  destruct inp as [|v|x|x f]; cbn [step failure_of].
-  - reflexivity.
-  - destruct (is_none v); [reflexivity|].
-    destruct (out v) as [y|]; [destruct (is_exception y)|]; reflexivity.
-  - destruct (is_syntax_family x); [reflexivity|].
-    destruct (is_macro_or_require x); [reflexivity|].
-    destruct (is_language_error x); reflexivity.
-  - destruct (is_system_exit x); [reflexivity|].
-    destruct (is_exception x); reflexivity.
-Qed.
+Proof. unfold failure_of. step_cases out inp; reflexivity. Qed.
 
 Fixpoint latest_failure (out : out_script) (inputs : list input) (acc : option val) : option val :=
   match inputs with
@@ -167,19 +99,21 @@ Qed.
 Definition no_repeat (r : rstate) : Prop :=
   (r_1 r = VNone \/ (r_1 r <> r_2 r /\ r_1 r <> r_3 r)) /\ (r_2 r = VNone \/ r_2 r <> r_3 r).
 
-(* with pairwise different results, and no failed input, no result is repeated *)
 Lemma nth_NoDup_neq (l : list val) i j :
   NoDup l -> (i < List.length l)%nat -> (j < List.length l)%nat -> i <> j -> nth i l VNone <> nth j l VNone.
 Proof.
   intros ND Hi Hj Hne E. apply Hne. eapply NoDup_nth; eauto.
 Qed.
 
-Theorem no_repeat_without_failures out inputs :
-  forallb unfailing inputs = true -> NoDup (results inputs) -> ~ In VNone (results inputs) ->
+(* With pairwise different results (every evaluated input produced a different object, none of them
+   None), no result ever occupies two of *1 *2 *3 -- whatever failed, incomplete or None-printing
+   inputs are interleaved. *)
+Theorem no_repeat_any_history out inputs :
+  NoDup (results inputs) -> ~ In VNone (results inputs) ->
   no_repeat (run_abstract out inputs initial).
 Proof.
-  intros HF ND NN.
-  destruct (history_vars_without_failures out inputs HF) as (A & B & C).
+  intros ND NN.
+  destruct (history_vars out inputs) as (A & B & C).
   unfold no_repeat. rewrite A, B, C.
   set (l := results inputs) in *.
   assert (X : forall i j, (i < j)%nat -> nth i l VNone = VNone \/ nth i l VNone <> nth j l VNone).
